@@ -301,10 +301,10 @@ theorem map_range_getD (l : List Nat) (h : Nat → Nat) :
     (List.range l.length).map (fun s => h (l.getD s 0)) = l.map h := by
   apply List.ext_getElem?
   intro k
-  simp only [List.getElem?_map, List.getElem?_range]
+  simp only [List.getElem?_map]
   by_cases hk : k < l.length
   · simp [hk, List.getD_eq_getElem?_getD]
-  · simp [hk, List.getElem?_eq_none (Nat.le_of_not_lt hk)]
+  · simp [hk]
 
 /-- code space used by the 18 lengths = their Kraft sum for limit 5 -/
 theorem gsum_order_eq_kraft (cl : List Nat) (hl : cl.length = 18) (h5 : ∀ x ∈ cl, x ≤ 5) :
